@@ -266,7 +266,7 @@ fn main() {
                 Err(e) => { out.viol("stream-frame-independent-decoder-rejects", &format!("independent decoder rejects raw frame {}: {}", k, e), &[("bytes", esc(&hex(&bytes)))]); break; }
             }
         }
-        if st.cases < st.max_cases + 60 && bytes.len() < 2500 && !bytes.is_empty() && written.iter().map(|f| f.samples.len()).sum::<usize>() <= MODEL_MAX_SAMPLES { st.cases += 1; out.case(dec_subset_case(&bytes, &[("src", esc("stream_writer"))])); }
+        if st.cases < st.max_cases + 60 && bytes.len() < 2500 && !bytes.is_empty() && written.iter().map(|f| f.samples.len()).sum::<usize>() <= MODEL_MAX_SAMPLES { st.cases += 1; out.case(dec_subset_case(&bytes, &[("src", esc("stream_writer"))])); out.case(enc_subset_case(&bytes, &written, cfg.json())); }
     }
 
     // the same boundaries through FlacStreamWriter (one frame per write)
